@@ -242,24 +242,62 @@ def define_rules(run):
                         okf = True
         run.check(okf, R, R + "|define|frozen-kept", g.loc(), "a frozen constant (overridden or statically known) is not evaluated again by the resolver",
                   "resolve_constant can re-evaluate a constant that was frozen: a command-line definition would be overwritten by the source value in the main passes")
-    # unused defines
+    # unused defines: a definition is used only when its name resolves to a declared *constant*
     u = run.anchor(R, "asm::check_unused_defines")
     if u is not None:
         tg_ = _calls(u, "SymbolManager::try_get_by_name")
         oku = len(tg_) == 1
+        why = "%d symbol lookups" % len(tg_)
         if oku:
             tb, tt = tg_[0]
-            sw = _switch_on_call_result(u, tb, tt)
-            oku = sw is not None
-            if oku:
-                some, none, sb = sw
-                reg = T.dominated_region(u, none, sb)
+            # the flag that decides: false when the lookup finds nothing, and otherwise `kind is Constant`
+            flag = None
+            for bi, t in u.calls():
+                if re.search(r"Option::<T>::(map_or|is_some_and)$", t.get("callee") or "") and "try_get_by_name" in deep(u, t["args"][0], 3):
+                    cid = closure_of_origin(u.origin_op(t["args"][-1]))
+                    g = run.prog.fn(cid) if cid else None
+                    dflt = deep(u, t["args"][1], 2) if len(t["args"]) == 3 else "false"
+                    is_const = False
+                    if g is not None:
+                        for b2 in sorted(g.reachable()):
+                            t2 = g.blocks[b2]["term"]
+                            if t2["k"] == "switch" and op_local(t2["discr"]) is not None:
+                                o = g.origin_local(op_local(t2["discr"]))
+                                if o[0] == "discr" and "SymbolKind" in (o[2].get("adt") or "") and deep(g, o[1], 5).endswith(".kind"):
+                                    vs = o[2].get("variants") or {}
+                                    for v, tgt in t2["targets"]:
+                                        if vs.get(v) == "Constant":
+                                            is_const = True
+                    if dflt == "false" and is_const:
+                        flag = t["dest"]["l"]
+            sw = None
+            if flag is not None:
+                for b in sorted(u.reachable()):
+                    tt2 = u.blocks[b]["term"]
+                    if tt2["k"] == "switch" and op_local(tt2["discr"]) is not None:
+                        l_ = op_local(tt2["discr"])
+                        o = u.origin_local(l_)
+                        neg = o[0] == "unop" and o[1]["op"] == "Not" and op_local(o[1]["x"]) is not None and u.copy_root(op_local(o[1]["x"])) == u.copy_root(flag)
+                        pos = u.copy_root(l_) == u.copy_root(flag)
+                        if neg or pos:
+                            ft = [tg for v, tg in tt2["targets"] if v == "0"]
+                            if ft:
+                                # edge taken when the name is NOT a declared constant
+                                bad_edge = tt2["otherwise"] if neg else ft[0]
+                                sw = (b, bad_edge)
+            if sw is None:
+                # the old shape: error exactly when nothing is found (does not cover names of labels/functions)
+                s0 = _switch_on_call_result(u, tb, tt)
+                oku = False
+                why = "a definition is accepted as soon as its name resolves to any symbol (label, function), not only to a constant" if s0 else "no decision on the lookup result"
+            else:
+                reg = T.dominated_region(u, sw[1], sw[0])
                 oku = report_error_in_region(u, reg)
-                # and the function fails when any was reported: the flag set in that region decides the result
                 flag_set = any(st["k"] == "assign" and st["rv"]["k"] == "use" and str(st["rv"]["op"].get("const")) == "true" for x in reg for st in u.blocks[x]["stmts"])
                 oku = oku and flag_set
-        run.check(oku, R, R + "|define|unused-is-error", u.loc(), "a command-line definition that names no declared symbol is reported and fails the assembly",
-                  "check_unused_defines no longer reports (or no longer fails on) a definition that names no declared symbol")
+                why = "the `not a declared constant` edge does not report and mark the failure"
+        run.check(oku, R, R + "|define|unused-is-error", u.loc(), "a command-line definition whose name is not a declared constant is reported and fails the assembly",
+                  "check_unused_defines: %s" % why)
 
 
 ARM_READERS = {
